@@ -303,28 +303,43 @@ Fixpoint node_agrees (tol : Q) (tbl : list mv) (n : node) (o : onode) {struct n}
     end
   end.
 
-(* one recorded solver call: q (float32), lambda (float64), K, N *)
-Definition ocall := (list Q * Q)%type.
+(* one recorded solver call: q (float32, exact rationals), lambda_n as the
+   rational of the binary64 value, and its bit patterns: binary64 as computed
+   by policy_probs, binary32 as the native solver receives it *)
+Definition ocall := (list Q * Q * (Z * Z))%type.
+Definition oc_q (o : ocall) : list Q := fst (fst o).
+Definition oc_lam (o : ocall) : Q := snd (fst o).
+Definition oc_bits (o : ocall) : Z * Z := snd o.
+
+(* the exact comparison of the multiplier is supplied by the correspondence:
+   lamchk C_bits N K lam64_bits lam32_bits (model/LambdaF64.v lambda_agrees, a
+   bit-exact binary64 / binary32 mirror of c*sqrt(N)/(N+K)); this file does not
+   depend on the float model *)
+Definition lamchk_t := Z -> Z -> Z -> Z -> Z -> bool.
 
 (* q within 2^-23 relative of the exact quotient (one float32 ulp covers the
-   float64 division followed by the rounding to float32); lambda through
-   lambda^2 (N+K)^2 = C^2 N within 1e-12 relative *)
-Definition call_agrees (C : Q) (i : pinputs) (o : ocall) : bool :=
-  all2 (fun a b => qclose (1 # 8388608) b a) (pi_q i) (fst o) &&
+   float64 division followed by the rounding to float32); lambda BIT FOR BIT by
+   lamchk (C as the rational for the model, Cb its binary64 pattern); the old
+   test lambda^2 (N+K)^2 = C^2 N within 1e-12 relative stays as a sanity check
+   that the recorded rational and the recorded bits belong together *)
+Definition call_agrees (lamchk : lamchk_t) (C : Q) (Cb : Z) (i : pinputs) (o : ocall) : bool :=
+  all2 (fun a b => qclose (1 # 8388608) b a) (pi_q i) (oc_q o) &&
+  lamchk Cb (Z.of_nat (pi_N i)) (Z.of_nat (pi_K i)) (fst (oc_bits o)) (snd (oc_bits o)) &&
   (let nk := qnat (pi_N i + pi_K i) in
-   qclose (1 # 1000000000000) (snd o * snd o * nk * nk) (C * C * qnat (pi_N i))) &&
-  Qle_bool 0 (snd o).
+   qclose (1 # 1000000000000) (oc_lam o * oc_lam o * nk * nk) (C * C * qnat (pi_N i))) &&
+  Qle_bool 0 (oc_lam o).
 
 (* replay of a whole search that also collects, per simulation, the solver
    inputs of the descent and compares them with the recorded calls *)
-Fixpoint replay_calls (cutoff mix C : Q) (css : list (list nat)) (calls : list (list ocall))
+Fixpoint replay_calls (lamchk : lamchk_t) (cutoff mix C : Q) (Cb : Z) (css : list (list nat))
+         (calls : list (list ocall))
          (n : node) (noise : option (list Q)) (evs : list eval) : bool * node * list eval :=
   match css, calls with
   | [], [] => (true, n, evs)
   | cs :: r, oc :: rc =>
-    let ok := all2 (call_agrees C) (descent_inputs cs n C) oc in
+    let ok := all2 (call_agrees lamchk C Cb) (descent_inputs cs n C) oc in
     let '(n', _, evs') := simulate cutoff mix cs n noise evs in
-    let '(ok', n'', evs'') := replay_calls cutoff mix C r rc n' noise evs' in
+    let '(ok', n'', evs'') := replay_calls lamchk cutoff mix C Cb r rc n' noise evs' in
     (ok && ok', n'', evs'')
   | _, _ => (false, n, evs)
   end.
@@ -336,7 +351,7 @@ Fixpoint replay_calls (cutoff mix C : Q) (css : list (list nat)) (calls : list (
    solver calls of each descent *)
 (* a policy query made after a phase (C09): path of the queried node from the
    FIRST root, the C of the query, the solver call it made (None = no call) *)
-Definition oquery := (list Z * Q * option ocall)%type.
+Definition oquery := (list Z * (Q * Z) * option ocall)%type.   (* path, (C, its binary64 pattern), call *)
 
 Record phase := mkPhase {
   ph_path : list Z; ph_limit : Z; ph_noise : option (list Q);
@@ -493,13 +508,13 @@ Fixpoint graft (n : node) (path : list Z) (t : node) : node :=
 (* a query must call the solver exactly when the node has children and has
    been visited, with the model's policy_inputs for the C of the query and the
    node's CURRENT statistics *)
-Definition query_agrees (whole : node) (q : oquery) : bool :=
-  let '(path, C, oc) := q in
+Definition query_agrees (lamchk : lamchk_t) (whole : node) (q : oquery) : bool :=
+  let '(path, (C, Cb), oc) := q in
   match subtree whole path with
   | None => false
   | Some t =>
     match n_sims t, policy_inputs t C, oc with
-    | S _, Some i, Some c => call_agrees C i c
+    | S _, Some i, Some c => call_agrees lamchk C Cb i c
     | S _, Some _, None => false
     | _, _, None => true
     | _, _, Some _ => false
@@ -511,7 +526,7 @@ Definition query_agrees (whole : node) (q : oquery) : bool :=
    whole tree; the path of the current tree; the evaluator answers left *)
 Definition qfail := (Z * list Z * Q * option (list Q * Q * nat * nat))%type.
 
-Fixpoint run_phases_calls (cutoff mix C : Q) (phs : list phase) (j : Z) (whole : node) (cur : list Z)
+Fixpoint run_phases_calls (lamchk : lamchk_t) (cutoff mix C : Q) (Cb : Z) (phs : list phase) (j : Z) (whole : node) (cur : list Z)
          (evs : list eval) : option (bool * list qfail * node * list Z * list eval) :=
   match phs with
   | [] => Some (true, [], whole, cur, evs)
@@ -521,19 +536,19 @@ Fixpoint run_phases_calls (cutoff mix C : Q) (phs : list phase) (j : Z) (whole :
     | None => None
     | Some t =>
       let '(ok, t', evs') :=
-          replay_calls cutoff mix C (map natl (ph_css ph)) (ph_calls ph) t (ph_noise ph) evs in
+          replay_calls lamchk cutoff mix C Cb (map natl (ph_css ph)) (ph_calls ph) t (ph_noise ph) evs in
       let whole' := graft whole cur' t' in
       let bad := flat_map (fun q : oquery =>
-                             if query_agrees whole' q then []
-                             else [(j, fst (fst q), Qred (snd (fst q)),
+                             if query_agrees lamchk whole' q then []
+                             else [(j, fst (fst q), Qred (fst (snd (fst q))),
                                     match subtree whole' (fst (fst q)) with
-                                    | Some t0 => match policy_inputs t0 (snd (fst q)) with
+                                    | Some t0 => match policy_inputs t0 (fst (snd (fst q))) with
                                                  | Some i => Some (map Qred (pi_q i), Qred (pi_lambda_sq i), pi_N i, pi_K i)
                                                  | None => None
                                                  end
                                     | None => None
                                     end)]) (ph_queries ph) in
-      match run_phases_calls cutoff mix C r (j + 1)%Z whole' cur' evs' with
+      match run_phases_calls lamchk cutoff mix C Cb r (j + 1)%Z whole' cur' evs' with
       | Some (ok', bad', w, c, e) =>
         Some (ok && match bad with [] => true | _ => false end && ok', bad ++ bad', w, c, e)
       | None => None
@@ -543,9 +558,9 @@ Fixpoint run_phases_calls (cutoff mix C : Q) (phs : list phase) (j : Z) (whole :
 
 (* final = the solver call made by select_root_move on the final tree, the
    sampled index and the move it returned *)
-Definition check_calls (cutoff mix C : Q) (p0 : position) (phs : list phase) (evs : list eval)
+Definition check_calls (lamchk : lamchk_t) (cutoff mix C : Q) (Cb : Z) (p0 : position) (phs : list phase) (evs : list eval)
            (final : option (ocall * Z * mv)) : bool :=
-  match run_phases_calls cutoff mix C phs 0%Z (root p0) [] evs with
+  match run_phases_calls lamchk cutoff mix C Cb phs 0%Z (root p0) [] evs with
   | Some (ok, _, whole, cur, _) =>
     match subtree whole cur with
     | None => false
@@ -555,7 +570,7 @@ Definition check_calls (cutoff mix C : Q) (p0 : position) (phs : list phase) (ev
       | None => true
       | Some (oc, choice, m) =>
         match policy_inputs n C with
-        | Some i => call_agrees C i oc
+        | Some i => call_agrees lamchk C Cb i oc
         | None => false
         end &&
         opt_eqb mv_eqb (select_root_move n (Z.to_nat choice)) (Some m) &&
@@ -567,8 +582,8 @@ Definition check_calls (cutoff mix C : Q) (p0 : position) (phs : list phase) (ev
 
 (* model view for a replay: everything agrees?; the first queries that do not;
    visits / value / v_zero of the current tree *)
-Definition show_calls (cutoff mix C : Q) (p0 : position) (phs : list phase) (evs : list eval) :=
-  match run_phases_calls cutoff mix C phs 0%Z (root p0) [] evs with
+Definition show_calls (lamchk : lamchk_t) (cutoff mix C : Q) (Cb : Z) (p0 : position) (phs : list phase) (evs : list eval) :=
+  match run_phases_calls lamchk cutoff mix C Cb phs 0%Z (root p0) [] evs with
   | Some (ok, bad, whole, cur, _) =>
     Some (ok, firstn 3 bad,
           match subtree whole cur with
